@@ -19,19 +19,22 @@ def parseEntry (e : String) : Option RO :=
 def parseCfg (s : String) : Option (List RO) :=
   if s == "-" then some [] else (s.splitOn " ; ").mapM parseEntry
 
-/-- write / removal entries of an access log: `(isMeta, path)` -/
-def writesOf (log : String) : List (Bool × Path) :=
+/-- entries of an access log whose kind letter is in `kinds` (`i` insert, `r` removal): `(isMeta, path)` -/
+def entriesOf (kinds : List Char) (log : String) : List (Bool × Path) :=
   if log == "-" then [] else
     (log.splitOn " | ").filterMap fun e =>
       match e.toList with
       | k :: m :: rest =>
-        if k == 'i' || k == 'r' then
+        if kinds.contains k then
           let rest := if rest.head? == some '!' then rest.drop 1 else rest
           match rest with
           | ':' :: p => (pathOfString (String.ofList p)).map (m == 'm', ·)
           | _ => none
         else none
       | _ => none
+
+/-- write / removal entries of an access log -/
+def writesOf (log : String) : List (Bool × Path) := entriesOf ['i', 'r'] log
 
 def handle (op : String) (args : List String) : Option String :=
   match op, args with
@@ -49,10 +52,12 @@ def handle (op : String) (args : List String) : Option String :=
     | none => pure "holds"
     | some (ro, _) =>
       let ws := (writes.filter (·.1 == ro.isMeta)).map (·.2)
-      pure (match classify ro ws with
+      let rs := ((entriesOf ['r'] log).filter (·.1 == ro.isMeta)).map (·.2)
+      pure (match classify ro ws rs with
         | .nonrecursiveChild => "fails readonly:D_nonrecursive_child"
         | .negativeIndex => "fails readonly:D_negative_index"
         | .coercion => "fails readonly:D_container_coercion"
+        | .removeShift => "fails readonly:D_remove_index_shift"
         | .unknown => "fails readonly:-")
   | _, _ => none
 
